@@ -23,6 +23,73 @@ CLAIM = {
 }
 
 
+_NORM = {}
+
+
+def normalised(prog, body):
+    """the body with its compile-time parts made explicit for the abstract interpreter (meaning unchanged):
+    * promoted constants (`&(1..=i64::MAX as usize)`, `&CONST_EXPR` ..) are evaluated in place: the promoted body is spliced in where the
+      constant is used, so a bound written as a constant range is as visible as one written as two comparisons;
+    * `RangeInclusive::new(a, b)` is the aggregate `RangeInclusive { start: a, end: b, exhausted: false }` (its definition in core)."""
+    import copy
+    from .. import inline
+    from ..mir import Body
+    from ..flow import _promoted_index
+    key = (id(prog), id(body))
+    if key in _NORM:
+        return _NORM[key][1]
+    j = copy.deepcopy(body.j)
+    blocks, locals_ = j["blocks"], j["locals"]
+    promoted = j.get("promoted") or []
+    changed = False
+    work = list(range(len(blocks)))
+    while work:
+        bb = work.pop(0)
+        blk = blocks[bb]
+        if blk["cleanup"]:
+            continue
+        for si, s in enumerate(blk["stmts"]):
+            if s["k"] != "assign" or s["rv"]["k"] != "use" or s["rv"]["a"]["k"] != "const":
+                continue
+            k = _promoted_index(s["rv"]["a"]["c"])
+            if k is None or k >= len(promoted) or s["rv"]["a"]["c"].get("def") not in (None, body.path):
+                continue
+            pj = promoted[k]
+            lo, bo = len(locals_), len(blocks) + 1
+            cont = dict(blk)
+            cont["stmts"] = blk["stmts"][si + 1:]
+            blk["stmts"] = blk["stmts"][:si]
+            blk["term"] = {"k": "goto", "t": bo, "line": s.get("line", 0)}
+            blocks.append(cont)                      # index bo - 1: the rest of the split block
+            locals_.extend(copy.deepcopy(pj["locals"]))
+            for pb in pj["blocks"]:
+                nb = inline._shift(pb, lo, bo)
+                if blk.get("inl_from"):
+                    nb["inl_from"] = blk["inl_from"]
+                if nb["term"]["k"] == "return":
+                    nb["stmts"].append({"k": "assign", "place": s["place"], "rv": {"k": "use", "a": {"k": "move", "place": {"l": lo, "p": []}}},
+                                        "line": s.get("line", 0), "exp": s.get("exp", False), "expk": s.get("expk", "")})
+                    nb["term"] = {"k": "goto", "t": bo - 1}
+                blocks.append(nb)
+            work.append(bo - 1)
+            changed = True
+            break
+    for blk in blocks:
+        t = blk["term"]
+        if blk["cleanup"] or t["k"] != "call" or len(t["args"]) != 2 or t.get("t", -1) < 0:
+            continue
+        if re.search(r"^std::ops::RangeInclusive::<Idx>::new$|^core::ops::RangeInclusive::<Idx>::new$", callee_name(t) or ""):
+            blk["stmts"].append({"k": "assign", "place": t["dest"], "line": t.get("line", 0), "exp": t.get("exp", False), "expk": t.get("expk", ""),
+                                 "rv": {"k": "agg", "ak": "adt", "adt": "std::ops::RangeInclusive", "variant": "RangeInclusive", "vi": 0, "is_enum": False,
+                                        "fnames": ["start", "end", "exhausted"], "active": -1,
+                                        "fields": [t["args"][0], t["args"][1], {"k": "const", "c": {"ty": "bool", "int": "0", "text": "false"}}]}})
+            blk["term"] = {"k": "goto", "t": t["t"], "line": t.get("line", 0)}
+            changed = True
+    out = Body(j, prog) if changed else body
+    _NORM[key] = (body, out)         # the key holds id(body): keep the body alive with its entry
+    return out
+
+
 def impls(prog):
     return [b for b in prog.bodies if b.name == "view_bounds" and b.impl_trait == "surface::ViewBounds"]
 
@@ -87,9 +154,12 @@ def run(ctx):
                 return None
         return st
 
-    for b0 in direct:
+    delegating = [b for b in bodies if b not in direct]
+    # Every impl's own `Some((s, e))` sites are checked, also those of an impl that otherwise delegates (an exact fast path in front of the
+    # general routine is a window like any other: it has to satisfy the postcondition by itself).
+    for b0 in direct + delegating:
         # private helpers of an impl (a shared resolution routine, a conversion) are analysed as part of it
-        b = inlined_private(prog, b0.path, keep=KEEP) or b0
+        b = normalised(prog, inlined_private(prog, b0.path, keep=KEEP) or b0)
         if b is b0:
             an = eng.analyze(b.path, ef[b.path])
         else:
@@ -179,20 +249,41 @@ def run(ctx):
                         miss += window_ok(st, back(rs.term(v0)) if v0 else None, back(rs.term(v1)) if v1 else None, b.path, site, {"form": "then", "closure": cpath})
                 if miss:
                     ctx.violation("POST", b.path, "some-%d" % n_some, "returned window is not provably within 0 <= start < end <= size (%s)" % ", ".join(miss), sites=[site])
-        if n_some == 0:
+        if n_some == 0 and b0 in direct:
             ctx.anchor("POST", b.path + "/no-Some-return")
-    for b in bodies:
-        if b in direct:
-            continue
-        # delegation: _0 is the result of range_bounds(_, size) with size = own argument 2
+
+    def ret_sources(ib, l=0, seen=()):
+        """what the return place can hold: ('call', bb) | ('win', variant) (an Option built here: Some is checked above, None is always
+        allowed) | ('other', ..), following whole-local copies/moves"""
+        if l in seen:
+            return set()
+        ds = ib.defs_of(l)
+        if not ds or (0 < l <= ib.arg_count):
+            return {("other", "_%d" % l)}
+        out = set()
+        for bb, si, rv in ds:
+            if si == "term":
+                out.add(("call", bb))
+            elif rv["k"] == "use" and rv["a"]["k"] != "const" and not rv["a"]["place"]["p"]:
+                out |= ret_sources(ib, rv["a"]["place"]["l"], seen + (l,))
+            elif rv["k"] == "agg" and rv.get("ak") == "adt" and rv.get("adt") == "std::option::Option" and rv.get("variant") in ("Some", "None"):
+                out.add(("win", rv["variant"]))
+            else:
+                out.add(("other", rv["k"]))
+        return out
+
+    for b in delegating:
+        # delegation: _0 is the result of range_bounds(_, size) with size = own argument 2 -- or a window built by the impl itself (checked
+        # against the postcondition above) or None
         ib = inlined_private(prog, b.path, keep=KEEP) or b      # a private conversion helper of the impl is part of it
         calls = [(bb, t) for bb, t in ib.calls() if call_matches(t, r"^surface::range_bounds$")]
         ok = False
-        if len(calls) == 1:
-            bb, t = calls[0]
-            # the result reaches the return place unchanged (directly or through a local), size is the impl's own size argument
-            o0 = origins(ib, {"k": "copy", "place": {"l": 0, "p": []}})
-            ok = {x[:2] for x in o0} == {("call", bb)} and origins(ib, t["args"][1]) == {("arg", 2)}
+        if calls:
+            # each result reaches the return place unchanged (directly or through a local), size is the impl's own size argument
+            srcs = ret_sources(ib)
+            cbbs = {bb for bb, t in calls}
+            ok = (all(x[0] == "win" or (x[0] == "call" and x[1] in cbbs) for x in srcs) and cbbs <= {x[1] for x in srcs if x[0] == "call"}
+                  and all(origins(ib, t["args"][1]) == {("arg", 2)} for bb, t in calls))
         ctx.instance("POST", {"impl": b.impl_self, "delegates_to_range_bounds_with_size": ok})
         if not ok:
             ctx.violation("POST", b.path, "delegation", "range impl does not return range_bounds(_, size) unchanged with its own size argument", sites=[b.loc])
